@@ -20,6 +20,9 @@ META = {
 BODIES = [
     "x = 'plain'\nprint(x)\n",
     "s = 'café üß'\nprint(s)\n",
+    # lines that look like a shebang but are not the first line: a comment, and a line of a string constant
+    "x = 1\n#!/bin/false\nprint(x)\n",
+    "script = '''\n#!/bin/sh\necho é\n'''\nprint(script)\n",
     "s = 'a\\tb\\\\n\\x00'\nb = b'\\xff\\x00'\n",
     "def f(name):\n    return 'naïve ' + name\n",
     "'''doc é'''\nvalue = 1\n",
@@ -237,8 +240,8 @@ def shebang_correspondence(ctx):
 
 def run(ctx):
     shebang_correspondence(ctx)
-    matrix(ctx, BODIES[:ctx.scale(2, 6)])
-    cli_matrix(ctx, BODIES[:ctx.scale(3, 6)])
+    matrix(ctx, BODIES[:ctx.scale(4, 8)])
+    cli_matrix(ctx, BODIES[:ctx.scale(4, 8)])
     ctx.sample({'stage': 'matrix', 'example': repr(build(BODIES[1], FIRST_LINES[1], 'latin-1', 'latin-1', False, '\r\n')[1])})
 
 
